@@ -75,6 +75,9 @@ func (f *Filler) fillInto(v reflect.Value, depth int, embeddedPtr bool) {
 			v.Set(reflect.ValueOf(float64(f.next()) + 0.25))
 		}
 	case reflect.Struct:
+		if zero && depth > 0 && f.R.Chance(1, 2) {
+			return // a member of struct kind left entirely zero
+		}
 		for i := 0; i < t.NumField(); i++ {
 			sf := t.Field(i)
 			f.fillInto(v.Field(i), depth+1, sf.Anonymous && sf.Type.Kind() == reflect.Pointer)
@@ -102,6 +105,8 @@ func (f *Filler) fillInto(v reflect.Value, depth int, embeddedPtr bool) {
 		if t.Elem().Kind() == reflect.Uint8 {
 			if !zero {
 				v.SetBytes([]byte(fmt.Sprintf("b%d", f.next())))
+			} else if f.R.Chance(1, 3) {
+				v.SetBytes([]byte{}) // empty but not nil: not the zero value
 			}
 			return
 		}
